@@ -1,6 +1,7 @@
 """C20 — call isolation: tie between lean/ZeepModel/Soap/Headers.lean and zeep (proxy, message building)."""
 import copy
 import io
+import json
 import re
 import sys
 import threading
@@ -33,19 +34,25 @@ WSDL = """<?xml version="1.0"?>
   <types><xsd:schema targetNamespace="urn:t" elementFormDefault="qualified" xmlns:tns="urn:t">
       <xsd:element name="in"><xsd:complexType><xsd:sequence><xsd:element name="k" type="xsd:string"/>
          <xsd:element name="items" type="xsd:int" minOccurs="0" maxOccurs="unbounded"/></xsd:sequence></xsd:complexType></xsd:element>
+      <xsd:element name="bag"><xsd:complexType><xsd:sequence><xsd:element name="k" type="xsd:string"/>
+         <xsd:choice minOccurs="0" maxOccurs="unbounded"><xsd:element name="x" type="xsd:int"/><xsd:element name="y" type="xsd:string"/></xsd:choice>
+         <xsd:element name="tags" type="xsd:string" minOccurs="0" maxOccurs="unbounded"/></xsd:sequence></xsd:complexType></xsd:element>
       <xsd:element name="out" type="xsd:string"/>
       <xsd:element name="auth"><xsd:complexType><xsd:sequence><xsd:element name="user" type="xsd:string"/></xsd:sequence></xsd:complexType></xsd:element>
       <xsd:element name="trace" type="xsd:string"/></xsd:schema></types>
   <message name="mi"><part name="p" element="tns:in"/></message>
   <message name="mih"><part name="p" element="tns:in"/><part name="auth" element="tns:auth"/><part name="trace" element="tns:trace"/></message>
+  <message name="mbag"><part name="p" element="tns:bag"/></message>
   <message name="mo"><part name="p" element="tns:out"/></message>
   <portType name="pt">
     <operation name="plain"><input message="tns:mi"/><output message="tns:mo"/></operation>
+    <operation name="bagop"><input message="tns:mbag"/><output message="tns:mo"/></operation>
     <operation name="addressed"><input message="tns:mi" wsaw:Action="urn:act:addressed"/><output message="tns:mo"/></operation>
     <operation name="withheaders"><input message="tns:mih"/><output message="tns:mo"/></operation>
   </portType>
   <binding name="b" type="tns:pt"><soap:binding style="document" transport="http://schemas.xmlsoap.org/soap/http"/>
     <operation name="plain"><soap:operation soapAction="plain"/><input><soap:body use="literal"/></input><output><soap:body use="literal"/></output></operation>
+    <operation name="bagop"><soap:operation soapAction="bag"/><input><soap:body use="literal"/></input><output><soap:body use="literal"/></output></operation>
     <operation name="addressed"><soap:operation soapAction="addr"/><input><soap:body use="literal"/></input><output><soap:body use="literal"/></output></operation>
     <operation name="withheaders"><soap:operation soapAction="wh"/><input><soap:body use="literal" parts="p"/>
        <soap:header message="tns:mih" part="auth" use="literal"/><soap:header message="tns:mih" part="trace" use="literal"/></input><output><soap:body use="literal"/></output></operation>
@@ -326,6 +333,48 @@ def build_twice(ctx, res):
             res.failures.append(dict(what="the first message changed when the second was built", case=dict(kind="twice", form=i % 5, op=op)))
 
 
+def inplace_history(ctx, res):
+    """value objects built without their repeated content and then filled in place (obj._value_1.append(...), obj.tags.append(...):
+    the documented way) over a history of calls on one client; every call is compared with the same call on a fresh client"""
+    def b1(T):
+        o = T(k="first")
+        o._value_1.append({"x": 1})
+        o._value_1.append({"y": "why"})
+        o.tags.append("t1")
+        return dict(k=o.k, _value_1=o._value_1, tags=o.tags)
+
+    def b3(T):
+        o = T(k="third")
+        return dict(k=o.k, _value_1=o._value_1, tags=o.tags)
+
+    def b4(T):
+        o = T(k="fourth")
+        o.tags.append("t4")
+        return dict(k=o.k, _value_1=o._value_1, tags=o.tags)
+    builders = [("filled-in-place", b1), ("choice-unset", lambda T: dict(k="second")), ("built-empty", b3), ("only-tags-filled", b4),
+                ("choice-unset-again", lambda T: dict(k="fifth"))]
+    shared, cap_s = make_client()
+    for i, (label, build) in enumerate(builders):
+        fresh, cap_f = make_client()          # knows nothing of the earlier steps
+        del cap_s[:]
+        res.case(key=("inplace", i), nontrivial=True)
+        res.count("inplace-history-step")
+        case = dict(kind="inplace-history", step=i, label=label)
+        try:
+            shared.service.bagop(**build(shared.get_element("{urn:t}bag")))
+            fresh.service.bagop(**build(fresh.get_element("{urn:t}bag")))
+        except Exception as e:  # noqa
+            res.failures.append(dict(what="call with a value filled in place raised %s: %s" % (type(e).__name__, e), case=case))
+            return
+        ms = [blank_ids(e) for _, e, _, _ in cap_s]
+        mf = [blank_ids(e) for _, e, _, _ in cap_f]
+        if ms != mf:
+            res.failures.append(dict(what="message on the shared client differs from the one a fresh client produces for the same call (%s): "
+                                          "content the caller never supplied / content of an earlier call" % label, case=case,
+                                     shared=json.dumps(ms)[:400], fresh=json.dumps(mf)[:400]))
+            return
+
+
 def overlap_probe(ctx, res):
     """deterministic two-thread schedules around per-call settings blocks on one client: thread A is inside its block,
     thread B enters and leaves a block for the same option (or calls without one), then A calls.  Each call must see its
@@ -444,6 +493,9 @@ def run(ctx):
     run_sequences(ctx, res, pending)
     build_twice(ctx, res)
     overlap_probe(ctx, res)
+    inplace_history(ctx, res)
+    from harness.props import c05
+    c05.dataset_histories(ctx, res)          # replies that describe their own payload: a call returns what *its* reply says
     if not res.failures:
         # the stress runs in a child process: lxml may crash the interpreter when elements are shared between threads
         import json as _json
